@@ -268,7 +268,7 @@ def tlv_region(rng, cw, lw, unit8, valid):
     """a region of options (own encoder, written from the RFC layouts), plus the list it encodes"""
     out, opts = b'', []
     for _ in range(rng.randrange(0, 6)):
-        code = rng.randrange(1, 255) if cw == 1 else rng.choice([rng.randrange(1, 300), rng.randrange(1 << 16)])
+        code = rng.randrange(1, 255) if cw == 1 else rng.choice([rng.randrange(1, 300), rng.randrange(1 << 16), 0])      # 0: PPPoE End-Of-List, DHCPv6 reserved -- a tag like any other to the loop
         if unit8:
             ln = 8 * rng.randrange(1, 5) - 2
         else:
